@@ -220,6 +220,22 @@ def run_selection(c):
         return {"rc": r["rc"], "text": text, "err": r["err"][:200], "stdout": r["out"]}
 
 
+def run_rewrite(c):
+    """`bkl -o out` over an existing longer file: what is on disk afterwards is exactly the new output"""
+    with Workdir() as d:
+        long_doc = {"a": list(range(40)), "text": "x" * 300, "k": {"n": 1}}
+        write_files(d, {"long.yaml": formats.dump("yaml", [long_doc, long_doc]), "short.yaml": formats.dump("yaml", [PROBE])})
+        out = "out." + c["ext"]
+        if c["preexisting"] == "long":
+            run_cli("bkl", ["-o", out, "long.yaml"], d)
+        elif c["preexisting"] == "garbage":
+            write_files(d, {out: "#" * 2000 + "\n"})
+        r = run_cli("bkl", ["-o", out, "short.yaml"], d)
+        ref = run_cli("bkl", ["-f", {"yml": "yaml", "jsonl": "json"}.get(c["ext"], c["ext"]), "short.yaml"], d)
+        text = open(os.path.join(d, out)).read() if os.path.exists(os.path.join(d, out)) else None
+        return {"rc": r["rc"], "file": text, "ref": ref["out"], "err": r["err"][:200]}
+
+
 def expected_format(c):
     alias = {"yml": "yaml", "jsonl": "json"}
     if c["f"]:
@@ -275,6 +291,13 @@ def run(rep):
                               {"case": c, "observed": o})
         if c["o"] and o["stdout"]:
             rep.violation("output went to stdout although -o was given", {"case": c, "observed": o})
+    rw = [{"ext": e, "preexisting": p} for e in ("json", "yaml", "toml", "yml", "jsonl", "json-pretty") for p in ("long", "garbage", "none")]
+    for c, o in zip(rw, pmap(run_rewrite, rw)):
+        rep.case(["rewrite", c], True)
+        rep.count("rewrite:" + c["preexisting"])
+        if o["rc"] != 0 or o["file"] != o["ref"]:
+            rep.violation(f"-o {c['ext']} over an existing file ({c['preexisting']}): the file does not hold exactly the new output",
+                          {"case": {"rewrite": c}, "observed": {k: (v[:300] if isinstance(v, str) else v) for k, v in o.items()}})
     if rep.broken and not rep.violations:
         rep.violation("proof obligation no longer checks: " + "; ".join(b["obligation"] for b in rep.broken), {"broken": rep.broken}, no_input=True)
     rep.assumptions.append("the per-document codecs (encoding/json, yaml.v3, go-toml/v2) are parameters of the theorems; their round-trip behaviour is what this run measures")
@@ -283,6 +306,10 @@ def run(rep):
 def replay(rep, payload):
     known_sigs = {}
     c = payload["case"]
+    if "rewrite" in c:
+        o = run_rewrite(c["rewrite"])
+        print(o)
+        return 1 if (o["rc"] != 0 or o["file"] != o["ref"]) else 0
     if "docs" in c:
         return 1 if evaluate(rep, [c], known_sigs) else 0
     o = run_selection(c)
